@@ -223,9 +223,13 @@ P["C17"] = dict(
     lean_targets=["JSight.Props.C17"],
     obligations=ob("JSight.Props.C17",
         ("Props.C17.C17_json_errpos", "reported index = first dead byte: prefix before it completable, nothing after it"),
-        ("Props.C17.C17_render_total", "renderer total for every content and position inside it")),
+        ("Props.C17.C17_render_total", "renderer total for every content and position inside it"),
+        ("Props.C17.C17_line_number", "line number = 1 + new-line symbols before the position"),
+        ("Props.C17.C17_line_lf", "LF files: counted by LF"),
+        ("Props.C17.C17_line_cr", "CR files: counted by CR"),
+        ("Props.C17.C17_line_crlf", "CRLF files: counted by LF")),
     runs=[{"cmd": ["render-diff"]}, {"cmd": ["c17-positions"]}, {"cmd": ["json-exh"]}],
-    partial="JSON error positions and renderer totality are theorems; line/text/caret exactness is model-vs-code exhaustive on small files; validation/schema positions are explored with planted violations",
+    partial="JSON error positions, renderer totality and the line number (LF / CR / CRLF files) are theorems; text/caret exactness is model-vs-code exhaustive on small files; validation/schema positions are explored with planted violations",
     level_text="Proof (partial): the JSON scanner's error index is the first byte after which nothing can follow while the prefix before it is completable (viable-prefix theorem through the C05 simulation, all byte strings); the renderer never indexes outside the content (theorem). Tie: renderer model vs real Error() on all contents up to 6/7 bytes over {a,space,tab,LF,CR} x all positions + long lines; model errPos vs real position on the exhaustive stream. Search: planted violations at generator-known offsets in documents and schemas.",
     level_note="Trusted: Lean kernel; line-number/caret text exactness validated exhaustively on small files, not proved.",
     technique="Lean 4 theorems (first dead byte, renderer totality) + exhaustive differential + planted-violation exploration")
